@@ -101,6 +101,12 @@ static uint64_t n_preempt, n_forced, n_handoff, n_idlejump, n_fair;
 static int n_stalled;
 static uint64_t n_foreign_mgr;
 static int amp_target = -1;
+/* PCT (probabilistic concurrency testing) schedules: strict thread priorities, d-1 random priority change
+ * points; complements uniform random preemption for bugs that need few, precisely placed switches */
+static int pct_on, pct_low = 0;
+static int pct_prio[MAXT];
+static uint64_t pct_change[4];
+static int pct_nchange;
 static uint64_t max_quiet_busy, max_quiet_ns_seen;
 
 /* named probes */
@@ -577,7 +583,14 @@ static void handoff(int to) {
   fwake(&T[to].go);
   fwait(&T[me].go);
 }
+static int pct_best(int exclude_self) {
+  int best = -1;
+  for (int i = 0; i < nthr; i++)
+    if ((!exclude_self || i != me) && runnable(i) && (best < 0 || pct_prio[i] > pct_prio[best])) best = i;
+  return best;
+}
 static int pick_random(int exclude_self) {
+  if (pct_on) return pct_best(exclude_self);
   int c[MAXT], n = 0;
   for (int i = 0; i < nthr; i++)
     if ((!exclude_self || i != me) && runnable(i)) c[n++] = i;
@@ -706,6 +719,18 @@ static void sched_point_inner(int kind) {
     }
     return;
   }
+  if (pct_on) {
+    for (int c = 0; c < pct_nchange; c++)
+      if (pct_change[c] == g_steps) pct_prio[me] = --pct_low; /* change point: the running thread drops to the lowest priority */
+    int b = pct_best(0);
+    if (b >= 0 && b != me) {
+      record_dec(b);
+      n_preempt++;
+      handoff(b);
+    }
+    amp_target = -1;
+    return;
+  }
   if (amp_target >= 0) {
     const int i = amp_target;
     amp_target = -1;
@@ -763,6 +788,7 @@ void fiber_verif_spin_hint(void) {
 }
 static void spin_hint_inner(void) {
   if (sim_hook_spin) sim_hook_spin();
+  if (pct_on) pct_prio[me] = --pct_low; /* a spinning thread must let the others run */
   account_step(K_SPIN);
   if (preempt_off) return;
   int o = choose_next(1);
@@ -868,6 +894,7 @@ int __wrap_pthread_create(pthread_t* thd, const pthread_attr_t* at, void* (*f)(v
   tramps[id].id = id;
   T[id].st = ST_RUN;
   T[id].last_run = g_steps;
+  pct_prio[id] = 1000 + (int)(rng_next(&R_sched) % 1000);
   T[id].in_maint = fiber_mode;
   T[id].is_fiber_thread = fiber_mode;
   nthr++;
@@ -1302,6 +1329,19 @@ sim_cfg_t sim_config(int tmin, int tmax, int w1, unsigned allowed_faults) {
   if (allowed_faults && wl_pct(60)) {
     for (int k = 0; k < F_NKINDS; k++)
       if ((allowed_faults & FBIT(k)) && wl_pct(50)) c.faults |= FBIT(k);
+  }
+  /* three runs in ten use a PCT schedule with 1-3 change points somewhere in the first K scheduling points */
+  int pol = wl_pick(10);
+  if (pol >= 7 && !sched_replay) {
+    static const int ks[] = {400, 1500, 6000, 25000};
+    pct_on = 1;
+    pct_nchange = wl_int(1, 3);
+    uint64_t K = (uint64_t)ks[wl_pick(4)];
+    for (int i = 0; i < pct_nchange; i++) pct_change[i] = 1 + rng_next(&R_sched) % K;
+    pct_prio[0] = 1000 + (int)(rng_next(&R_sched) % 1000);
+  } else if (pol >= 7) {
+    (void)wl_int(1, 3);
+    (void)wl_pick(4);
   }
   pinv = c.preempt_inv;
   cost_ns = c.cost_ns;
